@@ -677,6 +677,9 @@ class AgainTask (Task):
 
     try:
       nxt = g.send(None)
+    except StopIteration:
+      # Returned without yielding anything
+      pass
     except Exception:
       parent.task.re = sys.exc_info()
     else:
